@@ -429,6 +429,10 @@ pub struct RequestId {
 #[derive(Debug, Copy, Clone, PartialEq, Eq)]
 struct UniqueConnecId(u64);
 
+#[cfg(libp2p_verif)]
+#[path = "verif_kad_beh_handler.rs"]
+pub(crate) mod verif_kad_beh_handler;
+
 impl Handler {
     pub fn new(
         protocol_config: ProtocolConfig,
